@@ -110,7 +110,7 @@ Print Assumptions C05_succeeded_child_final.
 
 (** the boolean predicate the judge evaluates on implementation traces is exactly the inductively
     defined trace property [C05_trace] (Proofs/IbtpMonProofs.v) *)
-Theorem C05_predicate_reflects : forall w q items tr, c05_b w q items tr = true <-> C05_trace w q 2 None items tr.
+Theorem C05_predicate_reflects : forall w q items tr, c05_b w q items tr = true <-> C05_trace w q items 2 None items tr.
 Proof. exact c05_b_spec. Qed.
 Print Assumptions C05_predicate_reflects.
 
